@@ -53,7 +53,8 @@ class Job:
     def __init__(self, id, props, harness, entry, enforce=None, replace=(), loops=True,
                  defs=(), cflags=(), cbmc=(), timeout=900, must_have=(), tier="quick",
                  unwind=None, replay=None, functions=(), note="", solver=None, bounded=None,
-                 expect_fail=(), nondet_static=True, mem_gb=None, quick_only_for=()):
+                 expect_fail=(), nondet_static=True, mem_gb=None, quick_only_for=(), strip_bodies=()):
+        self.strip_bodies = list(strip_bodies)  # functions whose bodies are removed and replaced by "return nondet" (plain jobs only)
         self.quick_only_for = set(quick_only_for)  # if non-empty: part of the quick tier only for these properties
         self.mem_gb = mem_gb  # None: default 14 GB; larger values run one at a time
         self.id = id
@@ -97,6 +98,27 @@ def run_job(job, tree, trace=False):
         out["reason"] = "goto-cc failed (rc %s)" % rc
         return out
     cur = a
+    if job.strip_bodies:
+        a2 = os.path.join(wd, "a2.gb")
+        a3 = os.path.join(wd, "a3.gb")
+        cmd = ["goto-instrument"]
+        for f in job.strip_bodies:
+            cmd += ["--remove-function-body", f]
+        rc, _ = sh(cmd + [a, a2], tree, 300, log)
+        if rc == 0:
+            rc, _ = sh(["goto-instrument", "--generate-function-body", "|".join(job.strip_bodies),
+                        "--generate-function-body-options", "nondet-return", a2, a3], tree, 300, log)
+        if rc != 0:
+            out["reason"] = "goto-instrument (strip bodies) failed (rc %s)" % rc
+            return out
+        cur = a = a3
+    if not (job.enforce or job.replace or job.loops):
+        # plain job: drop the functions the entry point cannot reach (dfcc does this itself); without it CBMC's
+        # property instrumentation of the unrelated 8-lane vector functions of a vec256 TU does not finish
+        a1 = os.path.join(wd, "a1.gb")
+        rc, _ = sh(["goto-instrument", "--drop-unused-functions", a, a1], tree, 300, log)
+        if rc == 0:
+            cur = a = a1
     if job.enforce or job.replace or job.loops:
         gi = ["goto-instrument", "--dfcc", job.entry]
         if job.enforce:
@@ -314,9 +336,10 @@ def run_check(prop, jobs, tier, replay_fn=None, extra_assumptions=(), level_text
                 to = traces.get(j.id, {})
                 if replay_fn and j.replay:
                     try:
-                        if j.replay not in fam_cache:
-                            fam_cache[j.replay] = replay_fn(j, to, tree, seed)
-                        found, text = fam_cache[j.replay]
+                        ck = (j.replay, tuple(d for d in j.defs if d.startswith("SKINNY_VERIF_")))
+                        if ck not in fam_cache:
+                            fam_cache[ck] = replay_fn(j, to, tree, seed)
+                        found, text = fam_cache[ck]
                         fh.write("\n--- native replay (%s) ---\n%s\n" % (j.replay, text))
                     except Exception as e:  # replay problems never hide the violation
                         fh.write("\nreplay error: %r\n" % (e,))
